@@ -440,3 +440,7 @@ mod tests {
         config.verify().unwrap()
     }
 }
+
+#[cfg(kani)]
+#[path = "/verif/harness/teos/config.rs"]
+mod verif_harness;
